@@ -52,6 +52,9 @@ func EnumCase(path, in string, data interface{}, enum interface{}, caseSensitive
 	for i := 0; i < val.Len(); i++ {
 		ele := val.Index(i)
 		enumValue := ele.Interface()
+		if data == nil && enumValue == nil {
+			return nil // a null enum value matches a null value
+		}
 		if data != nil {
 			if reflect.DeepEqual(data, enumValue) {
 				return nil
